@@ -223,3 +223,109 @@ Lemma inline_accepts_global_options :
   In "warn_unused_configs"%string inline_accepted_globals /\ In "pretty"%string inline_accepted_globals
   /\ inl "python_version" = IRejectVersion /\ inl "strict" = IRejectStrict.
 Proof. repeat split; vm_compute; auto 200. Qed.
+
+(* ---------------------------------------------------------------- pyproject overrides *)
+From C17 Require Import ProofsResolve.
+
+Lemma dict_set_fresh : forall (A : Type) (d : list (key * A)) k a,
+    lookup d k = None -> dict_set d k a = d ++ [(k, a)].
+Proof.
+  induction d as [|[k' a'] d IH]; simpl; intros k a H; auto.
+  destruct (key_eqb k' k); [discriminate|]. rewrite IH; auto.
+Qed.
+
+Lemma lookup_snoc_fresh : forall (A : Type) (d : list (key * A)) k a k2,
+    lookup d k2 = None -> k <> k2 -> lookup (d ++ [(k, a)]) k2 = None.
+Proof.
+  intros. rewrite lookup_app, H. simpl. destruct (key_eqb k k2) eqn:E; auto.
+  apply key_eqb_eq in E. congruence.
+Qed.
+
+(* when no module is listed twice, the overrides tables and the same tables written as [mypy-m1,m2] sections
+   give the same per_module_options: the flat list of sections in file order *)
+Lemma destructure_modules_fresh : forall mods ch d,
+    NoDup mods -> (forall m, In m mods -> lookup d m = None) ->
+    destructure_modules d mods ch = Some (d ++ map (fun m => (m, ch)) mods).
+Proof.
+  induction mods as [|m r IH]; intros ch d ND H; simpl.
+  - rewrite app_nil_r. reflexivity.
+  - rewrite (H m) by (left; auto). inversion ND as [|? ? Hn ND']; subst.
+    rewrite IH; auto.
+    + rewrite <- app_assoc. reflexivity.
+    + intros m2 Hm2. apply lookup_snoc_fresh; [apply H; right; auto|]. intros E. subst. contradiction.
+Qed.
+
+Lemma ini_modules_fresh : forall (A : Type) mods (ch : A) d,
+    NoDup mods -> (forall m, In m mods -> lookup d m = None) ->
+    fold_left (fun d g => dict_set d g ch) mods d = d ++ map (fun m => (m, ch)) mods.
+Proof.
+  induction mods as [|m r IH]; intros ch d ND H; simpl.
+  - rewrite app_nil_r. reflexivity.
+  - rewrite dict_set_fresh by (apply H; left; auto). inversion ND as [|? ? Hn ND']; subst.
+    rewrite IH; auto.
+    + rewrite <- app_assoc. reflexivity.
+    + intros m2 Hm2. apply lookup_snoc_fresh; [apply H; right; auto|]. intros E. subst. contradiction.
+Qed.
+
+Lemma lookup_app_none : forall (A : Type) (d e : list (key * A)) k,
+    lookup d k = None -> ~ In k (map fst e) -> lookup (d ++ e) k = None.
+Proof. intros. rewrite lookup_app, H. apply lookup_none. auto. Qed.
+
+Lemma destructure_go_fresh : forall tables d,
+    NoDup (List.concat (map fst tables)) ->
+    (forall m, In m (List.concat (map fst tables)) -> lookup d m = None) ->
+    destructure_go d tables = Some (d ++ flat_sections tables).
+Proof.
+  induction tables as [|[mods ch] r IH]; intros d ND H; simpl.
+  - rewrite app_nil_r. reflexivity.
+  - simpl in ND, H. assert (ND1 : NoDup mods) by (eapply nodup_app_l; eauto).
+    rewrite destructure_modules_fresh; auto.
+    2:{ intros m Hm. apply H. apply in_or_app. auto. }
+    rewrite IH.
+    + unfold flat_sections. simpl. rewrite <- app_assoc. reflexivity.
+    + clear - ND. induction mods; simpl in *; auto. inversion ND; auto.
+    + intros m Hm. apply lookup_app_none; [apply H; apply in_or_app; auto|].
+      rewrite map_map. simpl. rewrite map_id. intros C.
+      clear - ND C Hm. induction mods as [|x mods IHm]; simpl in *; [contradiction|].
+      inversion ND as [|? ? Hn ND']; subst. destruct C as [C|C]; [subst; apply Hn; apply in_or_app; auto|auto].
+Qed.
+
+Lemma ini_go_fresh : forall (A : Type) (tables : list (list key * A)) d,
+    NoDup (List.concat (map fst tables)) ->
+    (forall m, In m (List.concat (map fst tables)) -> lookup d m = None) ->
+    fold_left (fun d s => fold_left (fun d g => dict_set d g (snd s)) (fst s) d) tables d = d ++ flat_sections tables.
+Proof.
+  induction tables as [|[mods ch] r IH]; intros d ND H; simpl.
+  - rewrite app_nil_r. reflexivity.
+  - simpl in ND, H. assert (ND1 : NoDup mods) by (eapply nodup_app_l; eauto).
+    rewrite ini_modules_fresh; auto.
+    2:{ intros m Hm. apply H. apply in_or_app. auto. }
+    rewrite IH.
+    + unfold flat_sections. simpl. rewrite <- app_assoc. reflexivity.
+    + clear - ND. induction mods; simpl in *; auto. inversion ND; auto.
+    + intros m Hm. apply lookup_app_none; [apply H; apply in_or_app; auto|].
+      rewrite map_map. simpl. rewrite map_id. intros C.
+      clear - ND C Hm. induction mods as [|x mods IHm]; simpl in *; [contradiction|].
+      inversion ND as [|? ? Hn ND']; subst. destruct C as [C|C]; [subst; apply Hn; apply in_or_app; auto|auto].
+Qed.
+
+Theorem toml_ini_agree : forall tables,
+    NoDup (List.concat (map fst tables)) ->
+    pmo_of_toml tables = Some (pmo_of_ini tables).
+Proof.
+  intros tables ND. unfold pmo_of_toml, pmo_of_ini, destructure_overrides, pmo_of_sections.
+  rewrite destructure_go_fresh by (auto; intros; reflexivity). simpl.
+  rewrite ini_go_fresh.
+  - simpl. f_equal. unfold flat_sections. rewrite !flat_map_concat_map, concat_map, !map_map.
+    f_equal. apply map_ext. intros [mods ch]. simpl. rewrite !map_map. reflexivity.
+  - rewrite map_map. simpl. exact ND.
+  - intros; reflexivity.
+Qed.
+
+(* every module gets its own copy: a later table for a alone does not reach b; conflicting values raise *)
+Open Scope string_scope.
+Lemma overrides_own_copy :
+  pmo_of_toml [([["a"]; ["b"]], [("x", VNum 1)]); ([["a"]], [("z", VNum 1)])]
+  = Some [(["a"], with_code_defaults [("x", VNum 1); ("z", VNum 1)]); (["b"], with_code_defaults [("x", VNum 1)])]
+  /\ pmo_of_toml [([["a"]; ["b"]], [("x", VNum 1)]); ([["a"]], [("x", VNum 2)])] = None.
+Proof. split; vm_compute; reflexivity. Qed.
